@@ -13,6 +13,8 @@ import (
 	"sort"
 	"strconv"
 	"sync"
+
+	vsched "github.com/cloudwego/netpoll/internal/verifsched"
 )
 
 var (
@@ -222,3 +224,7 @@ func vSizeClass(n, capv int) string {
 }
 
 func vSprintf(format string, a ...interface{}) string { return fmt.Sprintf(format, a...) }
+
+// vsSetCloseAudit forwards to the scheduler runtime's close(2) audit (fires only in builds whose
+// sources were instrumented by tools/vinstr).
+func vsSetCloseAudit(f func(point, fd int)) { vsched.SetCloseAudit(f) }
